@@ -191,6 +191,23 @@ def run(shard, spec):
         cases.insert(0, 'witness')         # the listed finding's witness is replayed first, deterministically
     if spec['shard'] == 5 % spec['of']:
         cases.insert(0, 'ay48')            # witness of the 48K AY finding: AY register written before the dump, read after it
+    # state that only some snapshot fields or encodings can carry, in every run: an AY register-select value above 15
+    # (128K, both formats), runs of 2-5 0xED bytes in RAM next to other bytes (the Z80 run-length coder), aliased paging ports
+    FIXED = {
+        # LD BC,FFFD; LD A,1F; OUT (C),A; 3 x NOP; IN A,(C); LD (9000),A; LD A,5; OUT (C),A; IN A,(C); LD (9001),A; JR $
+        'ay-select-high-szx': (True, 0x8000, [0x01, 0xFD, 0xFF, 0x3E, 0x1F, 0xED, 0x79, 0x00, 0x00, 0x00, 0xED, 0x78, 0x32, 0x00, 0x90, 0x3E, 0x05, 0xED, 0x79, 0xED, 0x78, 0x32, 0x01, 0x90, 0x18, 0xFE], 'szx', 16),
+        'ay-select-high-z80': (True, 0x8000, [0x01, 0xFD, 0xFF, 0x3E, 0x1F, 0xED, 0x79, 0x00, 0x00, 0x00, 0xED, 0x78, 0x32, 0x00, 0x90, 0x3E, 0x05, 0xED, 0x79, 0xED, 0x78, 0x32, 0x01, 0x90, 0x18, 0xFE], 'z80', 16),
+        # LD HL,EDED; LD (9000),HL; LD (9003),HL; LD (9004),HL; LD (9008),HL; LD (900A),HL; LD A,ED; LD (900C),A; LD A,(9001); JR $
+        'ed-runs-z80': (False, 0x8000, [0x21, 0xED, 0xED, 0x22, 0x00, 0x90, 0x22, 0x03, 0x90, 0x22, 0x04, 0x90, 0x22, 0x08, 0x90, 0x22, 0x0A, 0x90, 0x3E, 0xED, 0x32, 0x0C, 0x90,
+                                        0x3A, 0x01, 0x90, 0x18, 0xFE], 'z80', 14),
+        'ed-runs-128-z80': (True, 0x8000, [0x21, 0xED, 0xED, 0x22, 0x00, 0xC0, 0x22, 0x03, 0xC0, 0x22, 0x04, 0xC0, 0x22, 0x08, 0x90, 0x22, 0x0A, 0x90, 0x3E, 0xED, 0x32, 0x0C, 0x90,
+                                          0x3A, 0x01, 0xC0, 0x18, 0xFE], 'z80', 14),
+        # LD A,13; OUT (FD),A  (port 13FD: A15 and A1 clear - pages bank 3, ROM 1); LD A,(C000); LD (9000),A; LD A,(0001); LD (9001),A; JR $
+        'alias-port-128': (True, 0x8000, [0x3E, 0x13, 0xD3, 0xFD, 0x3A, 0x00, 0xC0, 0x32, 0x00, 0x90, 0x3C, 0x32, 0x00, 0xC0, 0x3A, 0x01, 0x00, 0x32, 0x01, 0x90, 0x18, 0xFE], 'szx', 12),
+    }
+    for k, name in enumerate(sorted(FIXED)):
+        if spec['shard'] == (6 + k) % spec['of']:
+            cases.insert(0, name)
     DIRECTED = {'stack-4000-c': 0x4000, 'stack-4001-c': 0x4001, 'stack-0001-c': 0x0001, 'stack-4000-py': 0x4000}
     if spec['shard'] in (1, 2, 3, 4) and spec['shard'] < spec['of']:
         cases.insert(0, sorted(DIRECTED)[spec['shard'] - 1])     # the stack-on-the-ROM-boundary programs, in every run
@@ -207,6 +224,9 @@ def run(shard, spec):
         if case in DIRECTED:
             py = case.endswith('-py')
             N = 40
+        if case in FIXED:
+            is128, org, code, ext, N = FIXED[case]
+            cmio, py, boundary = False, False, False
         if case == 'ay48':
             # LD BC,FFFD; LD A,1; OUT (C),A; LD B,BF; LD A,55; OUT (C),A; LD B,FF; 3 x NOP; IN A,(C); LD (9000),A; JR $
             is128, org, ext, cmio, py, N, boundary = False, 0x8000, 'szx', False, False, 14, False
@@ -217,7 +237,7 @@ def run(shard, spec):
             N *= 2
         opts = (['-c'] if cmio else []) + (['--python'] if py else [])
         frame = 70908 if is128 else 69888
-        t0 = 20000 if case == 'witness' else None
+        t0 = 20000 if case == 'witness' or case in FIXED or case == 'ay48' else None      # directed programs start well inside a frame
         iff0 = 1
         if boundary:
             t0 = (70908 if is128 else 69888) - rng.randint(1, 44)
